@@ -446,6 +446,18 @@ fn cmd_ctx(args: &[&str], out: &mut Vec<String>) {
             }
         } else if op == "it" {
             out.push(show_ctx(&ctx));
+            let alt = gs(|| {
+                let mut bad = iter_alt(&|| ctx.sps(), &|s| canon(s));
+                bad.extend(iter_alt(&|| ctx.pps(), &|p| canon(p)).into_iter().map(|x| format!("pps.{}", x)));
+                if bad.is_empty() {
+                    "same".to_string()
+                } else {
+                    format!("DIFF({})", bad.join(";"))
+                }
+            });
+            if alt != "same" {
+                out.push(format!("alt={}", alt));
+            }
         } else {
             panic!("bad ctx op {}", op);
         }
@@ -482,6 +494,16 @@ pub fn tables() {
             Some(Ok(t)) => println!("ut {} ok {} {}", b, t.id(), canon(&t)),
             Some(Err(_)) => println!("ut {} err", b),
             None => println!("ut {} panic", b),
+        }
+    }
+    // UnitType equality (PartialEq) over all pairs of ids 0..31: "distinct types"
+    for a in 0..32u8 {
+        for b in 0..32u8 {
+            let r = guard(|| match (UnitType::for_id(a), UnitType::for_id(b)) {
+                (Ok(x), Ok(y)) => ((x == y) as u8).to_string(),
+                _ => "err".to_string(),
+            });
+            println!("uteq {} {} {}", a, b, r.unwrap_or_else(|| "panic".to_string()));
         }
     }
     for b in 0..=255u8 {
